@@ -296,6 +296,32 @@ func TestC08(t *testing.T) {
 					}
 					rep.Stat("second_rounds", 1)
 				}
+				// everything of this builder is cancelled now. The program assigns the variable itself; asking the same
+				// builder for the variable again, cancelling that never-set mock and resetting the builder leave it alone
+				if alive && rng.Chance(1, 2) {
+					w := vals[rng.Intn(len(vals))]
+					reflect.NewAt(typ, addr).Elem().Set(restoreValue(typ, w))
+					bitsW := memOf(addr, typ.Size())
+					var vm2 mocker.VarMock
+					for _, st := range []struct {
+						name string
+						do   func()
+					}{
+						{"lookup-after-own-assignment", func() { vm2 = mk() }},
+						{"Cancel[never set]", func() { vm2.Cancel() }},
+						{"Reset[nothing set]", func() { b.Reset() }},
+					} {
+						if alive = step(st.name, st.do); !alive {
+							break
+						}
+						rep.Eval(1)
+						if got := memOf(addr, typ.Size()); got != bitsW {
+							fail("C08/unset-mock-changed-the-variable", fmt.Sprintf("the program assigned %s after all mocks were cancelled; after %s the variable holds %v (memory %s, assigned memory %s)", show(w), st.name, read(), got, bitsW))
+							break
+						}
+					}
+					rep.Stat("own_assignments_after_cancel", 1)
+				}
 				outcome := "ok"
 				if !alive {
 					outcome = "panicked"
